@@ -1,6 +1,7 @@
 #!/bin/sh
 # try_seed.sh <patch.diff> <PID>... : applies the patch to /repo, runs the quick checks, undoes it.
 P="$1"; shift
+[ -z "$(git -C /repo status --porcelain)" ] || { echo "/repo has uncommitted changes; refusing"; exit 2; }
 git -C /repo apply "$P" || { echo "patch does not apply"; exit 2; }
 for pid in "$@"; do
   (cd /verif && ./verif check "$pid" --tier quick 2>&1 | grep -E "VIOLATION|HELD|KNOWN|UNPROVED|CHECKER|obligation" | head -8; echo "exit=$?")
